@@ -127,6 +127,8 @@ var c13DockerPatterns = [][]string{
 	{"sub/*", "!sub/data"},
 	{"*", "!a*", "!dir*"},
 	{"**/*.txt", "!README"},
+	{"build/cache", "!build/cache/keep"},
+	{"build/cache", "!build/cache/keep", "pkg/scan/vendor", "!pkg/scan/vendor/keep.go"},
 }
 
 type c13Step struct {
@@ -157,13 +159,16 @@ func c13() {
 	if r.Counter("steps_reusing_baseline_directories") == 0 {
 		r.Inconclusive("no accelerated scan re-used a baseline directory")
 	}
-	r.Finish("random disk trees followed by histories of edit steps (create, mkdir, in-place edit, chmod, delete, rename, replace by new inode, single-attribute content changes (only inode / only mtime / only size differs), file<->directory, in-place edit two or more levels below a directory that is reported too, directory removed and re-created with the same layout and sizes but new content, symlink create/retarget, empty-directory replacement, add child; 1..30 edits per step, also inside ignored directories) under both ignore syntaxes; after every step core.Scan(baseline = previous accelerated snapshot, recheck = changed paths [+ random extra paths], previous digest and ignore caches) must succeed and be proto.Equal to a cold scan; accelerated outputs feed the next step; plus histories with ONE hasher object shared by all scans in which a scan is cancelled while hashing a 40 MiB file or a file grows while it is hashed, after which the accelerated scan with that hasher must equal a cold scan with a fresh one; non-trivial = step with at least one effective edit; distinct = (syntax, sorted edit operations of the step, baseline directories re-used or not, extras)", 60)
+	r.Finish("random disk trees followed by histories of edit steps (create, mkdir, in-place edit, chmod, delete, rename, replace by new inode, single-attribute content changes (only inode / only mtime / only size differs), file<->directory, in-place edit two or more levels below a directory that is reported too, directory removed and re-created with the same layout and sizes but new content, a change inside a directory reported together with a changed sibling named like the directory plus ' ', '+', '-' or '.', changes directly beside Docker-syntax phantom directories, symlink create/retarget, empty-directory replacement, add child; 1..30 edits per step, also inside ignored directories) under both ignore syntaxes; after every step core.Scan(baseline = previous accelerated snapshot, recheck = changed paths [+ random extra paths], previous digest and ignore caches) must succeed and be proto.Equal to a cold scan; accelerated outputs feed the next step; plus histories with ONE hasher object shared by all scans in which a scan is cancelled while hashing a 40 MiB file or a file grows while it is hashed, after which the accelerated scan with that hasher must equal a cold scan with a fresh one; non-trivial = step with at least one effective edit; distinct = (syntax, sorted edit operations of the step, baseline directories re-used or not, extras)", 60)
 }
 
 func c13History(r *vk.Run, rng *rand.Rand, h, steps int, root string) {
 	cfg := c13Config{Docker: rng.Intn(2) == 0}
 	if cfg.Docker {
 		cfg.Patterns = c13DockerPatterns[rng.Intn(len(c13DockerPatterns))]
+		if rng.Intn(2) == 0 {
+			cfg.Patterns = c13DockerPatterns[len(c13DockerPatterns)-1-rng.Intn(2)]
+		}
 	} else {
 		cfg.Patterns = c13MutagenPatterns[rng.Intn(len(c13MutagenPatterns))]
 	}
@@ -180,6 +185,7 @@ func c13History(r *vk.Run, rng *rand.Rand, h, steps int, root string) {
 	tree := fsx.RandomTree(rng, fsx.TreeConfig{MaxEntries: 10 + rng.Intn(50), MaxDepth: 2 + rng.Intn(3), MaxFileSize: 16 << 10,
 		Links: true, Fifos: rng.Intn(2) == 0, NonUTF8: rng.Intn(3) == 0, Temporaries: rng.Intn(3) == 0})
 	c13AddNest(rng, tree)
+	c13AddStructures(rng, tree)
 	fmt.Printf("C13 history %d config=%s entries=%d\n", h, vk.JSON(cfg), len(tree))
 	if err := fsx.Materialize(root, tree); err != nil {
 		r.Inconclusive("tree could not be materialized")
@@ -212,6 +218,7 @@ func c13History(r *vk.Run, rng *rand.Rand, h, steps int, root string) {
 		before := listing(root)
 		atScan, shaAtScan := before, fileDigests(root, before)
 		var forced []string // directories reported in addition to a deep descendant
+		exactOnly := false  // report the changed paths only (no parents) in this step
 		for e := 0; e < nEdits; e++ {
 			var ed fsx.Edit
 			var paths []string
@@ -227,6 +234,17 @@ func c13History(r *vk.Run, rng *rand.Rand, h, steps int, root string) {
 				}
 			case roll == 5:
 				ed, paths = c13RecreateDirectory(rng, root)
+			case roll == 6:
+				// a change inside a directory together with a changed sibling
+				// whose name is the directory's name plus a byte below '/'
+				var more fsx.Edit
+				ed, more, paths = c13PrefixSiblingEdit(rng, root, prev.Snapshot.Content)
+				if more.Op != "" {
+					step.Edits = append(step.Edits, more)
+					exactOnly = true
+				}
+			case roll == 7:
+				ed, paths = c13EditBesidePhantom(rng, root, prev.Snapshot.Content)
 			default:
 				ed, paths, err = fsx.RandomEdit(rng, root)
 			}
@@ -262,7 +280,7 @@ func c13History(r *vk.Run, rng *rand.Rand, h, steps int, root string) {
 		// Parents are what a fanotify watcher names for create/delete/rename;
 		// core.Scan closes the set over ancestors itself, so adding them or not
 		// must make no difference. Half of the steps report the changed paths only.
-		withParents := rng.Intn(2) == 0
+		withParents := rng.Intn(2) == 0 && !exactOnly
 		recheck := map[string]bool{}
 		for p := range changed {
 			// the endpoint drops watcher events for temporary names
@@ -361,6 +379,18 @@ func c13History(r *vk.Run, rng *rand.Rand, h, steps int, root string) {
 		// non-vacuity: how much of the baseline was really re-used (re-used
 		// directories are the very same Entry objects)
 		reused := countReused(prev.Snapshot.Content, acc.Snapshot.Content)
+		phantoms := 0
+		walkEntry("", acc.Snapshot.Content, func(_ string, e *core.Entry) {
+			if e.Kind == core.EntryKind_PhantomDirectory {
+				phantoms++
+			}
+		})
+		if phantoms > 0 {
+			r.Count("steps_with_phantom_directories", 1)
+			if reused > 0 {
+				r.Count("steps_with_phantom_directories_and_baseline_reuse", 1)
+			}
+		}
 		if reused > 0 {
 			r.Count("steps_reusing_baseline_directories", 1)
 			r.Count("baseline_directories_reused", int64(reused))
